@@ -86,17 +86,18 @@ func smallSpecs(seed int64, perRegime, blocks int, sharedWindows bool) (out []Tr
 		shape []int
 		bad   map[int]string
 	}{
-		{[]int{1, 2, 3, 4}, map[int]string{6: "tx-bad-signature"}},          // extension whose last block is invalid
-		{[]int{1, 2, 3, 4}, map[int]string{5: "v2-commitment", 6: ""}},      // invalid block inside an extension
-		{[]int{1, 2, 3, 2, 5, 6}, map[int]string{8: "tx-bad-signature"}},    // heavier fork with an invalid tip
-		{[]int{1, 2, 3, 2, 5, 6}, map[int]string{7: "tx-double-spend"}},     // heavier fork with an invalid middle
-		{[]int{1, 2, 3, 2, 5, 6}, map[int]string{6: "payout-value"}},        // fork whose first block has a bad header
+		{[]int{1, 2, 3, 4}, map[int]string{5: "tx-bad-signature"}},            // extension whose last block is invalid
+		{[]int{1, 2, 3, 4}, map[int]string{4: "v2-commitment"}},               // invalid block inside an extension
+		{[]int{1, 2, 3, 2, 5, 6}, map[int]string{7: "tx-bad-signature"}},      // heavier fork with an invalid tip
+		{[]int{1, 2, 3, 2, 5, 6}, map[int]string{6: "tx-double-spend"}},       // heavier fork with an invalid middle
+		{[]int{1, 2, 3, 2, 5, 6}, map[int]string{5: "payout-value"}},          // fork whose first block has a bad header
 		{[]int{1, 2, 3, 4, 2, 6}, map[int]string{5: "ts-future", 7: "nonce"}}, // future block on the main chain, bad header on the fork
+		{[]int{1, 2, 3, 2, 5, 6}, map[int]string{5: "tx-overspend"}},          // heavier fork, invalid first block, header-valid descendants
 	}
 	for ri, r := range regimes {
 		for si, sh := range shapes {
-			if si >= perRegime*3 {
-				break
+			if si >= perRegime*3 && ri != 2 {
+				break // every shape in the v2-only regime (also the validated path), the first ones elsewhere
 			}
 			bad := map[int]string{}
 			for k, v := range sh.bad {
@@ -421,7 +422,7 @@ func (r *replayer) runPath(pi int, path []edgeJ) {
 				if e.Act.Op == "SubmitV" {
 					var states []consensus.State
 					for _, id := range e.Act.Batch {
-						states = append(states, t.Node(id).L.CS)
+						states = append(states, t.Node(id).State()) // ledger state, or header-derived on an invalid chain
 					}
 					cls, ops, detail = n.SubmitValidated(r.blocks(t, e.Act.Batch), states, flushAt, crashAt)
 				} else {
